@@ -40,6 +40,27 @@ def aged_connections(c, prop="C15"):
                      {"op": "close", "conn": "slowin"}])
     meta["slowin_up"] = {"name": "within-exempt-slow-intake", "len": big, "framing": "cl", "seed": 777, "host": "other", "conn": "slowin",
                          "limit": 100 << 20}
+    # second-order state: five exempt uploads that are refused (chunked, one byte over 100 MiB; any case of the URL), then
+    # exempt uploads within the limit -- what was refused before has no bearing on them
+    exs = [{"op": "connect", "conn": "exq", "attr": {"uid": 0, "admin": 1, "dip": "168.63.129.16", "dport": 32526}, "timeout_ms": 120000}]
+    for xi, tgt in enumerate(["/vmAgentLog", "/VMAGENTLOG", "/vmagentlog", "/machine/?comp=telemetrydata", "/vmAgentLog"]):
+        rid = "exover%d" % xi
+        exs += [{"op": "connect", "conn": "ex%d" % xi, "attr": {"uid": 0, "admin": 1, "dip": "168.63.129.16", "dport": 32526}, "timeout_ms": 120000},
+                {"op": "request", "conn": "ex%d" % xi, "id": rid, "method": "POST" if "telemetry" in tgt else "PUT", "target": tgt,
+                 "headers": [["Host", "h"]], "body": {"seed": 900 + xi, "len": (100 << 20) + 1}, "framing": "chunked",
+                 "chunks": [1 << 20] * 8},
+                {"op": "close", "conn": "ex%d" % xi}]
+        meta[rid] = {"name": "over-exempt-%d" % xi, "len": (100 << 20) + 1, "framing": "chunked", "seed": 900 + xi, "host": "ga",
+                     "conn": "ex%d" % xi, "limit": 100 << 20, "nohash": True}
+    for xi, (tgt, n) in enumerate([("/vmAgentlog", 1024), ("/machine/?comp=telemetrydata", 4096)]):
+        rid = "exok%d" % xi
+        exs += [{"op": "request", "conn": "exq", "id": rid, "method": "POST" if "telemetry" in tgt else "PUT", "target": tgt,
+                 "headers": [["Host", "h"]], "body": {"seed": 950 + xi, "len": n}, "framing": "cl",
+                 "resp": {"status": 200, "headers": [["X-Host", rid]], "body": {"seed": 1, "len": 5}}}]
+        meta[rid] = {"name": "within-exempt-after-refusals-%d" % xi, "len": n, "framing": "cl", "seed": 950 + xi, "host": "ga", "conn": "exq",
+                     "limit": 100 << 20}
+    exs.append({"op": "close", "conn": "exq"})
+    branches.append(exs)
     # (the mock hosts keep idle upstream connections for 5 minutes here: an upstream connection the HOST closes after 30 idle
     #  seconds is answered 502 by the proxy, which is another scenario and not what is judged)
     ev, d, _ = rig.run_rig({"steps": [{"op": "parallel", "branches": branches}], "drain_ms": 400}, "aged_%s" % prop.lower(), timeout=600,
@@ -62,7 +83,7 @@ def aged_connections(c, prop="C15"):
         rows.append({"e": "upload", "id": rid, "name": m["name"], "len": m["len"], "limit": m.get("limit", LIMIT), "framing": m["framing"],
                      "answered": r is not None, "status": (r or {}).get("status", 0), "relayed": h is not None,
                      "hostBytes": stray.get(m["host"], 0) if h is None else h["bodyLen"],
-                     "bodyIntact": bool(h) and h["bodyLen"] == m["len"] and h["bodySha"] == util.sha(rig.gen_body(m["seed"], m["len"])),
+                     "bodyIntact": bool(h) and h["bodyLen"] == m["len"] and (m.get("nohash") or h["bodySha"] == util.sha(rig.gen_body(m["seed"], m["len"]))),
                      "age": 31, "clientError": (rerr.get(rid) or {}).get("kind", "")})
     c.extra["uploads_on_aged_connections"] = [{k: r[k] for k in ("name", "len", "status", "relayed")} for r in rows]
     ok, why, res = validate_trace(c, "LimitTrace", "LimitTrace.cfg", rows, "limit_%s" % prop, count=1, timeout=300)
